@@ -20,6 +20,7 @@ mod passes;
 mod reader;
 mod repl;
 mod rich;
+mod scope;
 mod serde;
 mod tables;
 mod text;
@@ -43,6 +44,8 @@ fn main() {
         "passes" => passes::run(&rest),
         "classicenv" => classicenv::run(&rest),
         "crash" => crash::run(&rest),
+        "scope" => scope::run(&rest),
+        "scope-worker" => scope::worker(&rest),
         "conv" => conv::run(&rest),
         "entry" => entry::run(&rest),
         "cldbmain" => entry::cldb_main(&rest),
